@@ -461,7 +461,17 @@ def r12_header_names(ctx):
         if isinstance(v, ast.DictComp) and isinstance(v.value, ast.Subscript) and isinstance(v.value.value, ast.Name) and isinstance(v.generators[0].target, ast.Tuple) and len(v.generators[0].target.elts) == 2:
             pos_var = unparse(v.generators[0].target.elts[1])
             m_defs = assigned_value(md, v.value.value.id)
-            okx = unparse(v.value.slice) == pos_var and bool(m_defs) and all(unparse(d_) in ("dict(zip(indexes, count()))", "{i: j for j, i in enumerate(indexes)}") for d_ in m_defs)
+            def old_to_new(d_):
+                # dict(zip(<kept old positions>, count())) where the kept old positions are list(compress(range(len(first)), <selects>))
+                if not (isinstance(d_, ast.Call) and call_name(d_) == "dict" and len(d_.args) == 1 and isinstance(d_.args[0], ast.Call) and call_name(d_.args[0]) == "zip" and len(d_.args[0].args) == 2):
+                    return False
+                a0, a1 = d_.args[0].args
+                if not (isinstance(a0, ast.Name) and unparse(a1) == "count()"):
+                    return False
+                kept = assigned_value(md, a0.id)
+                return bool(kept) and all(isinstance(k_, ast.Call) and call_name(k_) == "list" and k_.args and isinstance(k_.args[0], ast.Call) and call_name(k_.args[0]) == "compress"
+                                          and unparse(k_.args[0].args[0]).startswith("range(len(") for k_ in kept)
+            okx = unparse(v.value.slice) == pos_var and bool(m_defs) and all(old_to_new(d_) for d_ in m_defs)
     ctx.ob("C13.R12", ROWS, "DropRows.make_drop_row_args", ext[0] if ext else md, "the reduced row's header map sends each kept name to the new position OF ITS COLUMN (looked up by the column's old position)", okx,
            stmt="external headers by column position")
 
